@@ -351,6 +351,44 @@ func widthCases() {
 				}
 				r.Distinct(explore.Hash("w", prof.String(), g))
 			}
+			// history: the application has drawn the cluster with a width of its own (the one Characters() hands
+			// out) in an earlier frame; a cell left at width 0 is still measured with the terminal's method
+			for _, g := range widthAlphabet {
+				want := screenmodel.ExpectedWidth(vaxis.Cell{Character: vaxis.Character{Grapheme: g}}, prof)
+				own := vaxis.Characters(g)
+				if len(own) != 1 || own[0].Width == want || own[0].Width == 0 || want == 0 {
+					continue
+				}
+				win := s.Vx.Window()
+				win.Clear()
+				win.SetCell(0, 0, vaxis.Cell{Character: own[0]})
+				s.Vx.Render()
+				r.Count("width_cases", 1)
+				what := fmt.Sprintf("%q after a frame that showed it with the explicit width %d", g, own[0].Width)
+				if got := s.Vx.RenderedWidth(g); got != want {
+					r.Violation("C07|width|RenderedWidth|after-explicit-width", len(g), detail{Part: "width", Profile: prof.String(), What: what,
+						Why: fmt.Sprintf("RenderedWidth = %d, the terminal gives the cluster %d columns under the width method its replies select", got, want)})
+					continue
+				}
+				win.Clear()
+				m := screenmodel.New(12, 1)
+				m.Clear()
+				col, _ := win.Print(vaxis.Segment{Text: g + "x"})
+				m.SetCell(0, 0, vaxis.Cell{Character: vaxis.Character{Grapheme: g, Width: want}})
+				m.SetCell(want, 0, vaxis.Cell{Character: vaxis.Character{Grapheme: "x", Width: 1}})
+				s.Vx.Refresh()
+				var mm *screenmodel.Mismatch
+				s.Con.With(func(t *refterm.Terminal) { mm = m.Compare(t, prof) })
+				if col != want+1 {
+					r.Violation("C07|width|Print-advance|after-explicit-width", len(g), detail{Part: "width", Profile: prof.String(), What: what,
+						Why: fmt.Sprintf("Print advanced to column %d, expected %d", col, want+1)})
+				} else if mm != nil {
+					r.Violation("C07|width|terminal-disagrees|after-explicit-width|"+mm.Clause, len(g), detail{Part: "width", Profile: prof.String(), What: what,
+						Why: fmt.Sprintf("after Print(%q) and Refresh: col %d: %s", g+"x", mm.Col, mm.Detail)})
+				} else {
+					r.Distinct(explore.Hash("w-after-explicit", prof.String(), g))
+				}
+			}
 			s.Vx.Close()
 		}
 	}
